@@ -212,7 +212,8 @@ protected:
   }
 
   inline void decodeNextString() {
-    uchar *vb = new uchar[maxlength];
+    // (a rule can expand to a whole internal string: VByte + suffix + terminator)
+    uchar *vb = new uchar[maxlength + 6];
     uint read = 0;
 
     uint rule;
